@@ -28,6 +28,7 @@ rundemo() { # $1 = repo copy
     fi
     rm -rf $w; return $rc
   else
+    for f in $dd/*_test.go.txt; do [ -f "$f" ] && cp $f $dd/$(basename $f .txt); done
     for f in $dd/*_test.go; do cp $f $d/$pkg/; done
     (cd $d && go test -tags seeded -vet=off -count=1 ./$pkg/ 2>&1 | tail -3)
     (cd $d && go test -tags seeded -vet=off -count=1 ./$pkg/ >/dev/null 2>&1); local rc=$?
